@@ -493,7 +493,10 @@ def replay(w):
             if w.get('behaviour'):
                 x = _x()
                 a = cfg.get_func()(x)
-                b = back.get_func()(x)
+                try:
+                    b = back.get_func()(x)
+                except Exception as ex:
+                    return True, 'callable of the %s configuration read back from YAML (%s) raised %s: %s' % (w['variant'], w['route'], type(ex).__name__, str(ex)[:150])
                 a = a[0] if isinstance(a, tuple) else a
                 b = b[0] if isinstance(b, tuple) else b
                 if a.shape != b.shape or not np.array_equal(a, b):
@@ -552,8 +555,11 @@ def replay(w):
             for k, val in kw.items():
                 cfg[k] = val
             a = getattr(S, v)(x, **kw)
-            b = getattr(S, v)(x, **cfg)
-            f = cfg.get_func()(x)
+            try:
+                b = getattr(S, v)(x, **cfg)
+                f = cfg.get_func()(x)
+            except Exception as ex:
+                return True, 'the default configuration of %s cannot be used for the call it configures: %s: %s' % (v, type(ex).__name__, str(ex)[:150])
             a, b, f = [r[0] if isinstance(r, tuple) else r for r in (a, b, f)]
             if a.shape != b.shape or not np.array_equal(a, b):
                 return True, '%s(x, **get_config(%r)) differs from %s(x)' % (v, v, v)
@@ -601,10 +607,11 @@ def refute(tier, seed, emit):
     emit.scope('configurations with NO options (a bare SiftConfig(variant), and a default one emptied key by key), and with a single option: YAML file / text round trip keeps the sift type and the (empty) option set; the reloaded callable behaves like the variant called without options')
     for v in variants:
         for start in ('bare', 'emptied'):
-            for ed in ([], [['max_imfs', 2]]):
+            for ed in [[], [['max_imfs', 2]]] + ([[['nensembles', 2], ['ensemble_noise', 0]]] if v == 'ensemble_sift' else []):
                 for route in ('file', 'text'):
                     emit.case((v, start, len(ed), route), nontrivial=not ed, contract='SiftConfig.yaml')
-                    w = {'kind': 'yaml', 'variant': v, 'route': route, 'edits': ed, 'behaviour': v in ('sift', 'mask_sift'), 'start': start}
+                    # (ensemble_sift with zero noise is deterministic: its reloaded callable can be compared too)
+                    w = {'kind': 'yaml', 'variant': v, 'route': route, 'edits': ed, 'behaviour': v in ('sift', 'mask_sift') or len(ed) == 2, 'start': start}
                     ok, msg = replay(w)
                     if ok:
                         emit.violation('yaml-roundtrip:%s:empty-configuration' % route, w, msg)
